@@ -18,7 +18,10 @@ for src in glob.glob(os.path.join(HERE, "checker", "props", "*.go")):
     def sub(mo):
         global changed
         rid, floor = mo.group(2), int(mo.group(4))
-        for prop in props_of(src, s):
+        ps = props_of(src, s)
+        if len(ps) != 1:
+            return mo.group(0)  # a file shared by several properties: the rule's owner is not known here
+        for prop in ps:
             k = prop + "." + rid
             if k in want and want[k][0] == floor:
                 changed += 1
